@@ -57,6 +57,9 @@ def is_repo_module(modname):
     return modname is not None and (modname == "pendulum" or modname.startswith("pendulum."))
 
 
+MISSING = type('Missing', (), {'__repr__': lambda s: 'MISSING', '__bool__': lambda s: False})()
+
+
 class World:
     _instances = []
 
@@ -201,14 +204,14 @@ class World:
         for c in mro:
             if attr in c.__dict__:
                 return c.__dict__[attr], c
-        return None, None
+        return MISSING, None
 
     def obj_getattr(self, ex, st, o, attr, line):
         d, owner = self.mro_find(o.cls, attr)
         if attr == "__class__":
             yield st, o.cls
             return
-        if d is None:
+        if d is MISSING:
             if attr in o.f:
                 yield st, o.f[attr]
                 return
@@ -245,7 +248,7 @@ class World:
 
     def obj_method(self, ex, o, name, line):
         d, owner = self.mro_find(o.cls, name)
-        if d is None:
+        if d is MISSING:
             return None
         return self._bind(o, d, owner)
 
@@ -257,7 +260,7 @@ class World:
 
     def class_getattr(self, cls, attr, line):
         d, owner = self.mro_find(cls, attr)
-        if d is None:
+        if d is MISSING:
             # metaclass attributes (__name__, ...)
             if hasattr(cls, attr):
                 return self.lift(getattr(cls, attr))
@@ -282,7 +285,7 @@ class World:
         sv = sp.self_val
         cls = sv if isinstance(sv, type) else sv.cls
         d, owner = self.mro_find(cls, attr, after=sp.after_cls)
-        if d is None:
+        if d is MISSING:
             raise Unsupported(f"super().{attr} not found at line {line}")
         if attr == "__new__":
             if isinstance(d, (types.FunctionType,)):
@@ -352,7 +355,7 @@ class World:
             if isinstance(a, Obj) and b.cls is not a.cls and issubclass(b.cls, a.cls):
                 d, owner = self.mro_find(b.cls, rev)
                 da, _ = self.mro_find(a.cls, rev)
-                first = d is not None and d is not da
+                first = d is not MISSING and d is not da
             if first:
                 order.insert(0, (b, rev, a))
             else:
